@@ -523,6 +523,11 @@ func object(p *Parser) (Expr, error) {
 			return nil, err
 		}
 		key := p.lexer.GetString(p.previous)
+		var keyToken *Token
+		if p.previous.Tag == Str {
+			token := *p.previous
+			keyToken = &token
+		}
 		if err = p.consume(Colon); err != nil {
 			return nil, err
 		}
@@ -530,7 +535,7 @@ func object(p *Parser) (Expr, error) {
 		if err != nil {
 			return nil, err
 		}
-		items = append(items, ObjectKeyValue{key, value})
+		items = append(items, ObjectKeyValue{key, keyToken, value})
 
 		if p.current.Tag == Comma {
 			if err = p.consume(Comma); err != nil {
